@@ -13,4 +13,15 @@ inductive Arm where
 def sameArms (a b : List Arm) : Bool :=
   a.all (fun x => b.contains x) && b.all (fun x => a.contains x) && a.length == b.length
 
+/-- Go's `int` / `int64` (two's complement, 64 bit): the representative of `x` modulo 2^64 in
+`[-2^63, 2^63)`. Arithmetic of generated definitions that is rendered with `wrap64` wraps around
+exactly as the Go code does. -/
+def wrap64 (x : Int) : Int := (x + 9223372036854775808) % 18446744073709551616 - 9223372036854775808
+
+/-- Go's `uint64`: the representative of `x` modulo 2^64 in `[0, 2^64)`. -/
+def wrapU64 (x : Int) : Int := x % 18446744073709551616
+
+def minInt64 : Int := -9223372036854775808
+def maxInt64 : Int := 9223372036854775807
+
 end Juniper.Facts
